@@ -4,8 +4,8 @@ use std::io::{BufWriter, Read, Write};
 use std::path::{Path, PathBuf};
 use std::{env, fs, io};
 use xml_dom::{
-    AsNode, Attr, AttrMut, CharacterData, Document, DocumentMut, Element, NamedNodeMapMut, Node,
-    PrettyPrint, ProcessingInstruction,
+    AsExpandedName, AsNode, Attr, AttrMut, CharacterData, Document, DocumentMut, Element,
+    NamedNodeMapMut, Node, PrettyPrint, ProcessingInstruction,
 };
 
 struct Argument {
@@ -193,6 +193,15 @@ fn replace(
     Ok(())
 }
 
+/// The name of an element or attribute with its prefix (the DOM reports local names).
+fn qualified_name(node: &xml_dom::XmlNode) -> Result<String, Box<dyn Error>> {
+    match node.as_expanded_name()? {
+        Some((local, Some(prefix), _)) if prefix != "xmlns" => Ok(format!("{}:{}", prefix, local)),
+        Some((local, _, _)) => Ok(local),
+        None => Ok(node.node_name()),
+    }
+}
+
 fn clear_child<T>(node: T) -> Result<(), Box<dyn Error>>
 where
     T: xml_dom::Node + xml_dom::NodeMut,
@@ -231,7 +240,7 @@ where
 {
     match child {
         xml_dom::XmlNode::Attribute(v) => {
-            let mut n = doc.create_attribute(v.name().as_str())?;
+            let mut n = doc.create_attribute(qualified_name(&v.as_node())?.as_str())?;
             n.borrow_mut().set_value(v.value()?.as_str())?;
 
             if let Some(mut attr) = node.attributes() {
@@ -249,8 +258,24 @@ where
             node.append_child(n.as_node())?;
         }
         xml_dom::XmlNode::Element(v) => {
-            let n = doc.create_element(v.tag_name().as_str())?;
+            let n = doc.create_element(qualified_name(&v.as_node())?.as_str())?;
             node.append_child(n.as_node())?;
+
+            // The namespace declarations in scope for the element in the replacement.
+            for ns in v.in_scope_namespace()? {
+                let name = match ns.node_name().as_str() {
+                    "xml" => continue,
+                    "xmlns" => "xmlns".to_string(),
+                    prefix => format!("xmlns:{}", prefix),
+                };
+                let mut declaration = doc.create_attribute(name.as_str())?;
+                declaration
+                    .borrow_mut()
+                    .set_value(ns.node_value()?.unwrap_or_default().as_str())?;
+                if let Some(mut attr) = n.attributes() {
+                    attr.borrow_mut().set_named_item(declaration)?;
+                }
+            }
 
             if let Some(attributes) = v.attributes() {
                 for descendant in attributes.iter() {
